@@ -60,6 +60,16 @@ func NewGsfaReader(indexRootDir string) (*GsfaReader, error) {
 		}
 		index.man = man
 	}
+	// the offsets index must belong to the same epoch and CAR as the manifest
+	if index.man.Version() >= 2 {
+		om := index.offsets.Meta()
+		if wantEpoch, ok := index.man.Meta().GetUint64(indexmeta.MetadataKey_Epoch); ok && om.Epoch != wantEpoch {
+			return nil, fmt.Errorf("epoch mismatch between gsfa manifest (%d) and pubkey-to-offset-and-size index (%d)", wantEpoch, om.Epoch)
+		}
+		if wantRoot, ok := index.man.Meta().GetCid(indexmeta.MetadataKey_RootCid); ok && !om.RootCid.Equals(wantRoot) {
+			return nil, fmt.Errorf("root CID mismatch between gsfa manifest (%s) and pubkey-to-offset-and-size index (%s)", wantRoot, om.RootCid)
+		}
+	}
 	return index, nil
 }
 
